@@ -383,6 +383,13 @@ pub fn prelude_input(kind: u64, idx: u64, len: u64, pre: &MState) -> Option<Inpu
             // probe rounds: the probe number wraps after 256 rounds
             if pre.conn != 1 {
                 Some(Input::ApplyMany(vec![MMember { id: x, inc: 0, state: 0 }], idx % 2 == 0))
+            } else if idx % 2 == 1 && pre.p_direct.is_some() && !pre.p_ack_ok {
+                // the probed member answers with the round's own number: every number 0..=255 is acked once
+                let d = pre.p_direct.as_ref().unwrap();
+                let h = Header { src: d.id, src_incarnation: d.inc, dst: pre.identity, message: Message::Ack(pre.p_number as u8) };
+                let mut b = header_bytes(&h);
+                b.extend([0u8, 0]);
+                Some(Input::Data(b))
             } else {
                 Some(Input::Timer(MTimer::Probe(pre.token)))
             }
@@ -403,7 +410,7 @@ pub fn pick_prelude(g: &mut G) -> (u64, u64) {
     match g.below(20) {
         0 => (1, 250 + g.below(12)),
         1 => (2, 250 + g.below(12)),
-        2 => (3, 252 + g.below(8)),
+        2 => (3, 2 * (252 + g.below(8))),
         3 => (4, 3 * (252 + g.below(6))),
         _ => (0, 0),
     }
